@@ -564,6 +564,9 @@ class Trial:
             rec["retry_of_previous"] = True
         if twin is None:
             twin_ex, post = self.run_twin(argv)
+            self.stats["logical_statements_fault_free"] += twin_ex.calls
+            self.stats["logical_vm_callbacks_fault_free"] += twin_ex.callbacks
+            self.stats["logical_syscalls_fault_free"] += twin_ex.syscalls
             self.check_twin(op, argv, twin_ex, post, started_hot)
         else:
             twin_ex, post = twin      # sweeps: same pre-state files, same op => same twin (already checked)
@@ -1198,7 +1201,14 @@ def check(tier, only=None):
         "fault_kinds": {"configured": configured, "fired": fired},
         "probes": {k[len("probe_"):]: v for k, v in st.items() if k.startswith("probe_")},
         "abstract_states_visited": sorted(states),
-        "logical_steps": {"ops": st["ops"], "histories": st["histories"], "sweep_cases": st["sweep_cases"]},
+        "logical_steps": {"ops": st["ops"], "histories": st["histories"], "sweep_cases": st["sweep_cases"],
+                          "sql_api_calls_in_fault_free_twins": st["logical_statements_fault_free"],
+                          "vm_progress_callbacks_in_fault_free_twins": st["logical_vm_callbacks_fault_free"],
+                          "write_class_syscalls_in_fault_free_twins": st["logical_syscalls_fault_free"]},
+        "simulated_time": "no clock in the system under test: progress is counted in logical steps (above); "
+                          "time.sleep is served by a simulated clock (%.1f s slept in %d calls during this run)" % (
+                              cli.SIM_CLOCK["slept_s"], cli.SIM_CLOCK["sleeps"]),
+        "seeds": {"distinct_run_seeds": st["runs"], "per_hour": int(st["runs"] / max(1e-9, (__import__("time").time() - report.t0)) * 3600)},
         "layer_C": "LD_PRELOAD shim" if sysfault.available() else "unavailable: fell back to layers A, B, L (statement-level kills only)",
         "real_vs_stub": {
             "real": ["spowtd.user_interface.main and every step module (current /repo tree)",
